@@ -234,8 +234,10 @@ def capa_objective(det_name, params, X, events, det):
     if det_name == "CAPA":
         ca, cb, pa, pb = float(det.collective_penalty_), np.zeros(p), float(det.point_penalty_), np.zeros(p)
     else:
-        ca, cb = M.capa_penalty_factory(params["collective_penalty"])(n, p, cs.get_param_size(1), params["collective_penalty_scale"])
-        pa, pb = M.capa_penalty_factory(params["point_penalty"])(n, p, ps.get_param_size(1), params["point_penalty_scale"])
+        cpen, ppen = (K.build(v) if isinstance(v, dict) else v for v in (params["collective_penalty"], params["point_penalty"]))
+        ca, cb = M.capa_penalty_factory(cpen)(n, p, cs.get_param_size(1), params["collective_penalty_scale"])
+        pa, pb = M.capa_penalty_factory(ppen)(n, p, ps.get_param_size(1), params["point_penalty_scale"])
+        cb, pb = (np.broadcast_to(np.asarray(b, dtype=float), (p,)) if np.asarray(b).size == 1 else np.asarray(b, dtype=float) for b in (cb, pb))
     total = 0.0
     for a, b in events:
         if b - a == 1:
